@@ -297,6 +297,13 @@ pub mod ops {
         )
     }
 
+    fn split_hex_list(s: &str) -> Vec<String> {
+        if s.is_empty() {
+            return Vec::new();
+        }
+        s.split(';').map(hex_str).collect()
+    }
+
     fn parse_style(s: &str, tc: &str) -> Style {
         Style::from_str(s, None, None, tc == "1", None)
     }
@@ -332,6 +339,75 @@ pub mod ops {
                 let w: usize = fields[2].parse().unwrap_or(0);
                 let tail = hex_str(&fields[3]);
                 hex_encode(crate::ansi::truncate_str(&s, w, &tail).as_bytes())
+            }
+            // align_ops <hex token;hex token;...> <...> : Alignment::new(x, y).operations()
+            "align_ops" => {
+                let xs: Vec<String> = split_hex_list(&fields[1]);
+                let ys: Vec<String> = split_hex_list(&fields[2]);
+                let x: Vec<&str> = xs.iter().map(|s| s.as_str()).collect();
+                let y: Vec<&str> = ys.iter().map(|s| s.as_str()).collect();
+                crate::align::Alignment::new(x, y)
+                    .operations()
+                    .iter()
+                    .map(|o| match o {
+                        crate::align::Operation::NoOp => 'N',
+                        crate::align::Operation::Deletion => 'D',
+                        crate::align::Operation::Insertion => 'I',
+                    })
+                    .collect()
+            }
+            // tokenize <hex line> <hex regex>
+            "tokenize" => {
+                let line = hex_str(&fields[1]);
+                let re = regex::Regex::new(&hex_str(&fields[2])).unwrap();
+                crate::edits::verif::tokenize(&line, &re)
+                    .iter()
+                    .map(|t| hex_encode(t.as_bytes()))
+                    .collect::<Vec<_>>()
+                    .join(",")
+            }
+            // infer_edits <minus lines> <plus lines> <hex regex> <max_distance> <max_distance_naive>
+            // ops: 0 = minus noop, 1 = deletion, 2 = plus noop, 3 = insertion
+            "infer_edits" => {
+                let ms: Vec<String> = split_hex_list(&fields[1]);
+                let ps: Vec<String> = split_hex_list(&fields[2]);
+                let re = regex::Regex::new(&hex_str(&fields[3])).unwrap();
+                let d1: f64 = fields[4].parse().unwrap_or(0.6);
+                let d2: f64 = fields[5].parse().unwrap_or(0.0);
+                let (am, ap, al) = crate::edits::infer_edits(
+                    ms.iter().map(|s| s.as_str()).collect(),
+                    ps.iter().map(|s| s.as_str()).collect(),
+                    vec![0u8; ms.len()],
+                    1u8,
+                    vec![2u8; ps.len()],
+                    3u8,
+                    &re,
+                    d1,
+                    d2,
+                );
+                let fmt_lines = |ls: &Vec<Vec<(u8, &str)>>| {
+                    ls.iter()
+                        .map(|l| {
+                            l.iter()
+                                .map(|(o, t)| format!("{}{}", o, hex_encode(t.as_bytes())))
+                                .collect::<Vec<_>>()
+                                .join(",")
+                        })
+                        .collect::<Vec<_>>()
+                        .join("|")
+                };
+                let fmt_al = al
+                    .iter()
+                    .map(|(m, p)| {
+                        format!(
+                            "{}-{}",
+                            m.map(|v| v.to_string()).unwrap_or_default(),
+                            p.map(|v| v.to_string()).unwrap_or_default()
+                        )
+                    })
+                    .collect::<Vec<_>>()
+                    .join(",");
+                format!("M:{};P:{};A:{}", fmt_lines(&am), fmt_lines(&ap), fmt_al)
             }
             op => {
                 let _ = hex_decode("");
